@@ -128,6 +128,14 @@ def pieInit (sp : List Nat) (fixed val : Nat) : PIE :=
   let d := sp.getD fixed 1
   { len := len - 1, skip := len * d, offset := len * val, max := space sp, curr := len * val, currLen := 0 }
 
+/-- `PartialIndexEnumerator(F, factors, fixedFactor, val, missing)`: the same walk over the sub-space
+    spanned by `factors` (plus `fixedFactor` when `missing`) -/
+def pieInitPK (sp keys : List Nat) (fixed val : Nat) (missing : Bool) : PIE :=
+  let len := space (sel (keys.takeWhile (· < fixed)) sp)
+  let d := sp.getD fixed 1
+  let mx := spacePartial keys sp * (if missing then d else 1)
+  { len := len - 1, skip := len * d, offset := len * val, max := mx, curr := len * val, currLen := 0 }
+
 def PIE.value (p : PIE) : Nat := p.curr + p.currLen
 def PIE.isValid (p : PIE) : Bool := decide (p.curr + p.currLen < p.max)
 def PIE.advance (p : PIE) : PIE :=
